@@ -203,6 +203,8 @@ PENDING = {
         "(ddf.b + 'p-').str.replace('y','Q').str.upper() raises 'Can only use .str accessor with string values, not floating' while the graph is built",
     'filter:or-of-identical-operands-then-filter:IndexingError@compute':
         "s2 = s[p | p]; s2[s2] raises IndexingError 'Unalignable boolean Series provided as indexer' (p | p with identical operands, then a second filter by th",
+    'str-plus-literal:object-meta:filter-by-str-predicate:KeyError@Projection._meta':
+        "cur = ddf.assign(x1='x' + ddf.b); cur[cur.x1.str.contains('x')]['d'] raises KeyError 'd' (object-dtype meta of str + literal; the filtered frame's meta has no columns)",
     'user-meta-tuple:comparison-with-column:identically-labeled':
         "ddf.d.apply(f, meta=('d','float64')) != ddf.c raises 'Can only compare identically-labeled Series objects' while building the meta when the index is n",
 }
@@ -553,6 +555,46 @@ def dtype_only_numeric_upcast(val, exp):
         return False
 
 
+def upcast_before_astype_str(mini, case):
+    """aligned operands followed by astype(str): True when the program WITHOUT the cast differs from pandas only by
+    the int/float dtype of a column (pandas upcast the whole column because the alignment produced a NaN somewhere,
+    dask only the partitions that saw one) - the text "0" / "0.0" then differs as a consequence"""
+    def casts_to_str(st):
+        if st["op"] == "astype":
+            spec = st["spec"]
+            return spec == "str" or (isinstance(spec, dict) and "str" in spec.values())
+        return '["astype"' in json.dumps(st) and '"str"]' in json.dumps(st)
+
+    steps = mini["steps"]
+    seen_other = False
+    for i, st in enumerate(steps):
+        if st["op"] == "other":
+            seen_other = True
+        elif seen_other and casts_to_str(st):
+            try:
+                s, k, inf = run_pair(mini, case["pdf"], case["ddf"], case["opdf"], case["oddf"], upto=i, want_value=True)
+                if s == "neq":
+                    return k == "dtype" and dtype_only_numeric_upcast(inf["val"], inf["exp"])
+                if s != "ok":
+                    return False
+                # equal after concatenation: look at the partitions the cast will see
+                import pandas as pd
+
+                res, exp = inf["res"], inf["exp"]
+                want = [exp.dtype] if isinstance(exp, pd.Series) else list(exp.dtypes)
+                for j in range(res.npartitions):
+                    part = res.partitions[j].compute(scheduler="sync")
+                    if not len(part):
+                        continue
+                    got = [part.dtype] if isinstance(part, pd.Series) else list(part.dtypes)
+                    if any(getattr(g, "kind", "O") in "iub" and getattr(w, "kind", "O") == "f" for g, w in zip(got, want)):
+                        return True
+            except Exception:  # noqa: BLE001
+                return False
+            return False
+    return False
+
+
 def _dask_concat(dfs):
     from dask.dataframe.dispatch import concat
 
@@ -651,6 +693,19 @@ def na_action_not_applied(desc, case, val):
         return False
 
 
+def str_plus_literal_then_str_predicate(steps):
+    """a column / series built as <str expression> + "literal" (either order) and a LATER filter whose predicate applies
+    the .str accessor: the object-dtype meta of the sum makes the predicate's meta float64 and the filtered frame's
+    meta loses every column (same root as expr-node:AttributeError@StringAccessor.__init__)"""
+    for i, st in enumerate(steps):
+        text = json.dumps(st)
+        if any(('["bin", "+", ["lit", "%s"]' % lit) in text or ('["lit", "%s"]]' % lit) in text for lit in ("_s", "p-", "x")):
+            for later in steps[i + 1:]:
+                if later["op"] in ("filter", "sfilter", "locsel") and '["str",' in json.dumps(later.get("pred", "")):
+                    return True
+    return False
+
+
 def per_column_argument_then_selection(steps):
     """kind of the first step whose argument is given per column (mapping keyed by column / one entry per column /
     a frame / a user meta describing every column) when a LATER step selects columns, else None"""
@@ -709,9 +764,13 @@ def make_label(mini, layout, key, message=""):
     if pc is not None and (layout == "any-layout" or exc):
         return "per-column-argument:%s:then-column-selection:%s" % (pc, "exception" if exc else "wrong-result")
     if key == "IndexingError@compute" and any(
-            st["op"] in ("filter", "sfilter") and isinstance(st.get("pred"), list) and st["pred"][:2] == ["bin", "|"]
-            and st["pred"][2] == st["pred"][3] for st in steps[:-1]):
+            (st["op"] in ("filter", "sfilter") and isinstance(st.get("pred"), list) and st["pred"][:2] == ["bin", "|"]
+             and st["pred"][2] == st["pred"][3]) or
+            (st["op"] == "series" and st["expr"][:2] == ["bin", "|"] and st["expr"][2] == st["expr"][3]
+             and sum(1 for x in steps if x["op"] == "sfilter") >= 2) for st in steps[:-1]):
         return "filter:or-of-identical-operands-then-filter:IndexingError@compute"
+    if key == "KeyError@Projection._meta" and str_plus_literal_then_str_predicate(steps):
+        return "str-plus-literal:object-meta:filter-by-str-predicate:KeyError@Projection._meta"
     if exc and site.split(".")[0] in ("LT", "LE", "GT", "GE", "EQ", "NE", "LTSeries", "LESeries", "GTSeries", "GESeries",
                                       "EQSeries", "NESeries") and "identically-labeled" in message:
         return "user-meta-tuple:comparison-with-column:identically-labeled"
@@ -826,6 +885,8 @@ def run_case(case, ctx):
             elif key == "dtype" and desc["uses_other"] and dtype_only_numeric_upcast(info["val"], info["exp"]):
                 # aligned operands: rows that got a NaN from the alignment were filtered away again; pandas upcast the
                 # whole column, dask only the partitions that saw a NaN
+                label = PARTITIONWISE
+            elif key == "values" and desc["uses_other"] and upcast_before_astype_str(mini, c):
                 label = PARTITIONWISE
     if status == "neq" and "val" in info:
         with warnings.catch_warnings():
